@@ -3,7 +3,7 @@ Decision on the implementation: for scripted scenarios (name/descriptor x none/g
 write/writev to the FIRST output fails with ENOSPC / EIO or is cut short; single fault and persistent from k on) is
 injected through the interposed system calls; oracle: if the first output lost bytes, an API call threw no later than the
 rotate_output that closes it; a write_block() that threw left its records buffered; a rotate_output to a healthy
-destination after a reported failure returns normally; the following write_block() yields a complete valid file holding
+destination after a reported failure returns normally; the output between the two rotations stays empty; the following write_block() yields a complete valid file holding
 the records that were still buffered.  Proof: Props/C16.lean (writer/fault model)."""
 import vlib, cdnsgen as G, expcheck as E
 
@@ -131,6 +131,10 @@ def check(run):
                 bad = ("rotate-rethrows", "failure was already reported, yet rotate_output to a healthy destination threw: %s" % api[first_r])
             elif api[12].startswith("E:"):
                 bad = ("second-rotate-throws", "the second rotate_output to a healthy destination threw")
+        # nothing is written between the two rotations: the output opened by the first and closed by the second holds no byte
+        # (a rotation that reported the failure of the OLD output must still start the new one cleanly)
+        if bad is None and len(outs) >= 3 and outs[1] not in ("-", "MISSING") and E.decompress(outs[1], sc[1])[0] != b"":
+            bad = ("intermediate-output", "the output opened by the first rotation and closed by the second received no block, yet it holds (compressed form): %s" % outs[1][:80])
         # the following write_block produces a complete valid file with the records still buffered
         if bad is None:
             cnt = api[13]       # counters before the final W:  c=items.qr.aec.mm.blocks
